@@ -14,6 +14,7 @@ mod server;
 mod stubs;
 mod vtransport;
 mod wire;
+mod mem;
 
 use serde_json::{json, Value};
 use std::{collections::BTreeMap, io::Write};
@@ -134,6 +135,7 @@ fn main() {
         "hooks" => hooks::run(&a),
         "stubs" => stubs::run(&a),
         "wire" => wire::run(&a),
+        "mem" => mem::run(&a),
         "chain" => chain::run(&a),
         f => {
             eprintln!("unknown family {f}");
